@@ -95,6 +95,13 @@ var properties = map[string]Prop{
 		Rule:        "(a) the real event stream of a started System: 2-3 threads of Subscribe / Unsubscribe / UnsubscribeAll / Publish calls over 2 subscribers and 2 event types (subscribers are references with a recording mailbox), every interleaving at sync granularity up to the delay bound, race detector on; oracle = brute-force linearizability against set semantics, exactly-once, both tables agree and are clean; (b) subscriber actors in a running System: per-publisher order, double subscription, unsubscribe, termination (also zombie, own ActorKilledEvent, events published in reaction to the termination), restart; every schedule up to the delay bound with switch points at messages and sends; distinct_nontrivial = distinct delivery logs per scenario",
 		Assumptions: schedAssumptions,
 	},
+	"C20": {
+		Parts:       []Part{{Harness: "c20"}},
+		Level:       "model_checking",
+		QuickBudget: 200, ThoroughBudget: 1800,
+		Rule: "106 operation scripts (1-4 operations over Once/Loop/Cron(valid,invalid)/Cancel(known,unknown)/Clear/kill owner/fail-and-restart owner/kill receiver; delays 0-3 s so that instants collide; 1-3 jobs; the same reference on two actors; receiver self/other) issued by the owning actor inside handlers at chosen virtual instants incl. exactly at, just before and after firing instants; every schedule up to the delay bound with switch points at messages/sends plus timer deviations at tie instants; oracle = reference timetable (count, not-before-instant, nothing after cancel/clear/owner death/restart, no dead letter for dead jobs, parse error, not-found); distinct_nontrivial = distinct delivery timetables per scenario",
+		Assumptions: append([]string{coarseAssumption}, schedAssumptions...),
+	},
 	"C05": {
 		Parts:       []Part{{Harness: "c05"}},
 		Level:       "model_checking",
